@@ -492,7 +492,7 @@ func checkMain(args []string) int {
 			if tier == "thorough" {
 				jobs[i].Timeout = 300000
 			} else {
-				jobs[i].Timeout = 60000
+				jobs[i].Timeout = 120000
 			}
 		}
 	}
@@ -548,11 +548,13 @@ func checkMain(args []string) int {
 			SolverS float64
 			WallS   float64
 			Steps   int64
+			MaxQ    float64
+			Slow    int
 		}
 		var l []js
 		for _, r := range results {
 			if r != nil {
-				l = append(l, js{r.Harness, r.Params, r.Paths, r.Solver.Queries, r.Solver.Seconds, r.WallS, r.Steps})
+				l = append(l, js{r.Harness, r.Params, r.Paths, r.Solver.Queries, r.Solver.Seconds, r.WallS, r.Steps, r.Solver.MaxQuery, r.Solver.Slow})
 			}
 		}
 		b, _ := json.MarshalIndent(l, "", " ")
